@@ -681,6 +681,8 @@ RXTOOL = os.path.join(os.path.dirname(os.path.dirname(os.path.abspath(__file__))
 
 
 def rx(*args):
+    # a pattern printed back by the tool may contain a literal NUL (the lower bound of a negated class); argv cannot
+    args = [a.replace("\x00", "\\x00") if isinstance(a, str) else a for a in args]
     out = subprocess.run([RXTOOL] + list(args), capture_output=True, text=True)
     try:
         return json.loads(out.stdout)
